@@ -1,7 +1,7 @@
 open Model
 open Conv
 open AtomicQueue
-(* atomicqueue <active:0|1> <counts: n1,n2,..> <script over D I M A F> | tid tid ... *)
+(* atomicqueue <active:0|1> <counts: n1,n2,..; a trailing 'o' = that producer uses enqueue_or_mark_active> <script over D R I M A F> | tid tid ... *)
 let str_item (p, j) = Printf.sprintf "%d.%d" (int_of_nat p) (int_of_nat j)
 let str_ptr = function PNull -> "0" | PInactive -> "INACTIVE" | PItem it -> "i" ^ str_item it
 let render = function
@@ -10,23 +10,32 @@ let render = function
     if ok then Printf.sprintf "head C.acq_rel %s->i%s ok" (str_ptr cur) (str_item it)
     else Printf.sprintf "head C.acq %s->i%s fail" (str_ptr cur) (str_item it)
   | EWake it -> "wake " ^ str_item it
+  | EOrmCas (cur, it, tonull, ok) ->
+    let nw = if tonull then "0" else "i" ^ str_item it in
+    if ok then Printf.sprintf "head C.acq_rel %s->%s ok" (str_ptr cur) nw
+    else Printf.sprintf "head C.acq %s->%s fail" (str_ptr cur) nw
+  | EDirect it -> "direct " ^ str_item it
   | EMarkInactive (cur, ok) ->
     if ok then "head C.rel 0->INACTIVE ok" else Printf.sprintf "head C.rlx %s->INACTIVE fail" (str_ptr cur)
   | EMarkActive (cur, ok) ->
     if ok then "head C.acq INACTIVE->0 ok" else Printf.sprintf "head C.rlx %s->0 fail" (str_ptr cur)
   | EXchg old -> Printf.sprintf "head X.acq %s->0" (str_ptr old)
   | EBatch b -> Printf.sprintf "batch [%s]" (str_list str_item b)
+  | EBatchRev b -> Printf.sprintf "rbatch [%s]" (str_list str_item b)
 let op_of_char = function
-  | 'D' -> OpDeq | 'I' -> OpTryInactive | 'M' -> OpInactiveOrDeq | 'A' -> OpTryActive | _ -> OpFinal
+  | 'D' -> OpDeq | 'R' -> OpDeqRev | 'I' -> OpTryInactive | 'M' -> OpInactiveOrDeq | 'A' -> OpTryActive | _ -> OpFinal
 let commas s = if s = "-" || s = "" then [] else String.split_on_char ',' s
 let () =
   Registry.register "atomicqueue" (fun args ->
     match args with
     | act :: counts :: scr :: "|" :: tids ->
-      let cs = List.map (fun x -> nat_of_int (int_of_string x)) (commas counts) in
+      let is_o x = String.length x > 0 && x.[String.length x - 1] = 'o' in
+      let num x = if is_o x then String.sub x 0 (String.length x - 1) else x in
+      let cs = List.map (fun x -> nat_of_int (int_of_string (num x))) (commas counts) in
+      let kinds = List.map is_o (commas counts) in
       let ops = List.init (String.length scr) (fun i -> op_of_char scr.[i]) in
       let step t s = AtomicQueue.step (nat_of_int t) s in
-      let (st, tr) = Lockstep.run step render (AtomicQueue.init (act = "1") cs ops) (ints_of_words tids) in
+      let (st, tr) = Lockstep.run step render (AtomicQueue.init (act = "1") cs kinds ops) (ints_of_words tids) in
       Printf.sprintf "%s # final=%d delivered=%s enq=%s stack=%s inactive=%d marks=%d wakes=%d actives=%d" tr
         (if AtomicQueue.final st then 1 else 0)
         (str_list str_item st.AtomicQueue.delivered) (str_list str_item st.AtomicQueue.enq)
